@@ -4,7 +4,11 @@ use crate::vk::*;
 use crate::{vassert, vcover};
 
 fn complete_body(n: i32) {
-    let directed = any_bool();
+    complete_body_d(n, any_bool())
+}
+/// `directed` is a constant in the `_d` / `_u` harnesses: itertools' permutations / combinations over a
+/// symbolic flag is what puts `c16_complete_n{2,3}` out of reach.
+fn complete_body_d(n: i32, directed: bool) {
     let g = complete_graph(n, directed);
     let names = g.get_all_node_names();
     vassert!(names.len() as i32 == n, "complete_graph has exactly n nodes");
@@ -40,3 +44,7 @@ crate::vharness! { unwind = 6; fn c16_complete_n0() { complete_body(0) } }
 crate::vharness! { unwind = 6; fn c16_complete_n1() { complete_body(1) } }
 crate::vharness! { unwind = 6; fn c16_complete_n2() { complete_body(2) } }
 crate::vharness! { unwind = 8; fn c16_complete_n3() { complete_body(3) } }
+crate::vharness! { unwind = 6; fn c16_complete_n2_u() { complete_body_d(2, false) } }
+crate::vharness! { unwind = 6; fn c16_complete_n2_d() { complete_body_d(2, true) } }
+crate::vharness! { unwind = 8; fn c16_complete_n3_u() { complete_body_d(3, false) } }
+crate::vharness! { unwind = 8; fn c16_complete_n3_d() { complete_body_d(3, true) } }
